@@ -187,6 +187,13 @@ def check(ctx, case):
 		elif case.get('prior') == 'writable-session':
 			ws = file_sessionmaker(gdb, readonly=False)()
 			ws.query(Taxon).count(); ws.close()
+		elif case.get('prior') in ('explicit-class-maker', 'explicit-class-session'):
+			# … or named the session class explicitly and left `readonly` at its default (the documented way to get an ordinary session)
+			from sqlalchemy.orm import Session as _PlainSession
+			mk = file_sessionmaker(gdb, cls=_PlainSession)
+			if case['prior'] == 'explicit-class-session':
+				ws = mk()
+				ws.query(Taxon).count(); ws.close()
 		if case['via'] == 'default':
 			session = file_sessionmaker(gdb)()
 		elif case['via'] == 'refdb':
@@ -300,7 +307,7 @@ def run(ctx):
 				# not modelled, so no rollback / close follows it)
 				ops += ['savepoint'] + [rng.choice(['sql', 'add', 'query', 'flush', 'savepoint']) for _ in range(rng.randint(0, 3))] + \
 				       [rng.choice(['txncommit', 'commit', 'query']) for _ in range(rng.randint(1, 3))]
-			sub({'kind': 'session', 'via': rng.choice(['default', 'refdb', 'cli']), 'ops': ops, 'prior': rng.choice([None, None, 'writable-maker', 'writable-session'])}, 'session-history')
+			sub({'kind': 'session', 'via': rng.choice(['default', 'refdb', 'cli']), 'ops': ops, 'prior': rng.choice([None, None, 'writable-maker', 'writable-session', 'explicit-class-maker', 'explicit-class-session'])}, 'session-history')
 	finally:
 		if _w is not None:
 			_w.cleanup()
